@@ -23,7 +23,7 @@ structure Mutation where
 
 /-- error classes of operation results (ovsdb/error.go); anything else is `other` -/
 inductive OpErr where
-  | constraint | referential | domain | notSupported | timedOut | other
+  | constraint | referential | domain | range | notSupported | timedOut | other
   deriving DecidableEq, Repr
 
 def wrap64 (i : Int) : Int := ((i + 9223372036854775808) % 18446744073709551616) - 9223372036854775808
@@ -50,6 +50,31 @@ def arithAtom (m : Mutator) (a b : Atom) : Atom :=
   | .int x, .int y => .int (arithInt m x y)
   | .real x, .real y => .real (arithReal m x y)
   | a, _ => a
+
+def int64Lo : Int := -9223372036854775808
+def int64Hi : Int := 9223372036854775807
+/-- the largest finite float64 -/
+def maxFloat64 : Rat := 179769313486231570814527423731704356798070567525844996598917476803157260780028538760589558632766878171540458953514382464234321326889464182768467546703537516986049910576551282076245490090389328944075868508455133942304583236903222948165808559332123348274797826204144723168738177180919299881250404026184124858368
+
+/-- `outOfRange` (as repaired, defect D69): an integer operation that overflowed int64, a real operation
+    whose result is not a finite float64 (RFC 7047 "range error") -/
+def outOfRange (cur : Value) (m : Mutator) (nv : Value) : Bool :=
+  match cur, nv with
+  | .atom (.int x), .atom (.int y) =>
+    let exact : Option Int := match m with
+      | .add => some (x + y) | .sub => some (x - y) | .mul => some (x * y) | .div => some (Int.tdiv x y)
+      | _ => none
+    match exact with
+    | some r => r < int64Lo || r > int64Hi
+    | none => false
+  | .atom (.real x), .atom (.real y) =>
+    let exact : Option Rat := match m with
+      | .add => some (x + y) | .sub => some (x - y) | .mul => some (x * y) | .div => some (x / y)
+      | _ => none
+    match exact with
+    | some r => r < -maxFloat64 || r > maxFloat64
+    | none => false
+  | _, _ => false
 
 def isArith : Mutator → Bool
   | .insert | .delete => false
@@ -334,6 +359,7 @@ def addOperation (ts : TableSchema) (acc : ModelUpdate) (uuid : UUID) (current :
         | _, _ => pure ()
         match acc.1.field mu.col, old.field mu.col with
         | some cur, some o =>
+          if outOfRange cur mu.mutator nv then throw OpErr.range
           let (newV, diff) := mutate cur mu.mutator nv
           let r := mergeDifference (some o) (get? acc.2 mu.col) diff
           let diffs := match r.2, r.1 with
